@@ -135,7 +135,7 @@ fn names(v: &[&'static str]) -> impl Strategy<Value = String> + use<> {
 /// Responses of the real server code for every V1 endpoint.
 fn v1_responses() -> Result<Vec<(String, Vec<u8>)>, String> {
     use cascette_ribbit::{AppState, ServerConfig};
-    let dir = tempfile::tempdir().map_err(|e| e.to_string())?;
+    let dir = crate::scratch_dir().map_err(|e| e.to_string())?;
     let rec = |id: u64, product: &str, version: &str, build: &str, salt: u32| {
         serde_json::json!({
             "id": id, "product": product, "version": version, "build": build,
@@ -174,6 +174,19 @@ fn v1_responses() -> Result<Vec<(String, Vec<u8>)>, String> {
         out.push((cmd.to_string(), r));
     }
     Ok(out)
+}
+
+/// Per-case scratch directory. Memory-backed when possible: the disk cache fsyncs every
+/// value, and on a shared, I/O-loaded machine that alone can stretch a run tenfold. Nothing
+/// in the property depends on the medium.
+pub fn scratch_dir() -> std::io::Result<tempfile::TempDir> {
+    let shm = std::path::Path::new("/dev/shm");
+    if std::env::var_os("VH_C07_TMP_ON_DISK").is_none() && shm.is_dir() {
+        if let Ok(d) = tempfile::Builder::new().prefix("vh-c07-").tempdir_in(shm) {
+            return Ok(d);
+        }
+    }
+    tempfile::Builder::new().prefix("vh-c07-").tempdir()
 }
 
 struct StderrParked(Option<i32>);
